@@ -24,6 +24,7 @@ type AssertClause struct {
 	Each   bool // before-each: at every innermost statement containing the fragment
 	Text   string
 	Assume bool // "assume @label after|before <fragment> :: expr": assumed at that point, not proved (listed in the evidence)
+	Ghost  string // "ghostat @label after|before <fragment> :: name = expr": ghost counter update at that point
 }
 
 type LoopContract struct {
@@ -89,7 +90,7 @@ var clauseKeywords = map[string]bool{
 	"serves": true, "requires": true, "ensures": true, "modifies": true, "decreases": true,
 	"loop": true, "flag": true, "pure": true, "trusted": true, "inline": true, "opaque": true,
 	"nopanic": true, "maypanic": true, "assume-safety": true, "dyncalls-pure": true, "functional": true, "unroll": true, "abstract": true, "allocates": true, "replaytext": true, "wrap": true, "overflow": true, "norac": true, "stages": true,
-	"split": true, "assume-unreachable": true, "ghostset": true, "assumes": true, "assumepre": true, "lemma": true, "assert": true, "assume": true, "splitcond": true, "dyncall-preserves": true, "assumed-ensures": true, "except": true, "loopinvariant": true, "loopdecreases": true, "notemplate": true,
+	"split": true, "assume-unreachable": true, "ghostset": true, "assumes": true, "assumepre": true, "lemma": true, "assert": true, "assume": true, "ghostat": true, "splitcond": true, "dyncall-preserves": true, "assumed-ensures": true, "except": true, "loopinvariant": true, "loopdecreases": true, "notemplate": true,
 }
 
 // parseContracts reads all /*@ ... @*/ blocks of a contracts file.
@@ -217,7 +218,7 @@ func parseBlock(body string) (*Contract, error) {
 				return nil, fmt.Errorf("bad splitcond clause %q (want: splitcond at <value> :: cond)", rest)
 			}
 			c.SplitConds = append(c.SplitConds, [2]string{strings.TrimSpace(body[:k]), strings.TrimSpace(body[k+4:])})
-		case "assert", "assume":
+		case "assert", "assume", "ghostat":
 			cl := mkClause(rest, len(c.Asserts)+1)
 			before := strings.HasPrefix(cl.Text, "before")
 			each := strings.HasPrefix(cl.Text, "before-each")
@@ -226,7 +227,16 @@ func parseBlock(body string) (*Contract, error) {
 			if !(strings.HasPrefix(cl.Text, "after") || before) || k < 0 {
 				return nil, fmt.Errorf("bad assert clause %q (want: assert @label after|before <fragment> :: expr)", rest)
 			}
-			c.Asserts = append(c.Asserts, AssertClause{Label: cl.Label, After: strings.TrimSpace(body[:k]), Before: before, Each: each, Text: strings.TrimSpace(body[k+4:]), Assume: kw == "assume"})
+			ac := AssertClause{Label: cl.Label, After: strings.TrimSpace(body[:k]), Before: before, Each: each, Text: strings.TrimSpace(body[k+4:]), Assume: kw == "assume"}
+			if kw == "ghostat" {
+				eq := strings.Index(ac.Text, "=")
+				if eq < 0 {
+					return nil, fmt.Errorf("bad ghostat clause %q (want: ghostat @label after|before <fragment> :: name = expr)", rest)
+				}
+				ac.Ghost = strings.TrimSpace(ac.Text[:eq])
+				ac.Text = strings.TrimSpace(ac.Text[eq+1:])
+			}
+			c.Asserts = append(c.Asserts, ac)
 		case "except":
 			for _, e := range strings.Split(rest, ",") {
 				if e = strings.TrimSpace(e); e != "" {
